@@ -208,6 +208,8 @@ theorem tryForEachAcc_good (f : Nat → Streams → Nat → Streams × Nat × Op
   unfold Streams.ignoreData; step_grind
 @[grind ←] theorem recvOpen_good (k : Nat) (b : Bool) (h : Good s) : Good (s.recvOpen k b).1 := by
   unfold Streams.recvOpen; step_grind
+@[grind ←] theorem notifyPushIfRecvEnded_good (k : Nat) (h : Good s) : Good (s.notifyPushIfRecvEnded k) := by
+  unfold Streams.notifyPushIfRecvEnded; step_grind
 @[grind ←] theorem recvRecvHeaders_good (k : Nat) (hd : HeadersIn) (h : Good s) : Good (s.recvRecvHeaders k hd).1 := by
   unfold Streams.recvRecvHeaders; step_grind
 @[grind ←] theorem recvRecvTrailers_good (k : Nat) (hd : HeadersIn) (h : Good s) : Good (s.recvRecvTrailers k hd).1 := by
